@@ -6,6 +6,8 @@ pub mod c12;
 pub mod c16;
 pub mod c18;
 pub mod c19;
+pub mod c11;
+pub mod c20;
 pub mod c21;
 pub mod c26;
 pub mod c22;
@@ -22,6 +24,8 @@ pub fn for_property(p: &str) -> Vec<Suite> {
         "C16" => c16::suites(),
         "C18" => c18::suites(),
         "C19" => c19::suites(),
+        "C11" => c11::suites(),
+        "C20" => c20::suites(),
         "C21" => c21::suites(),
         "C26" => c26::suites(),
         "C12" => c12::suites_c12(),
